@@ -121,7 +121,7 @@ func failFast(w *World, r *Report, ro *Roles, rule string) {
 		r.Undecided(rule, "task-change callback", "-", "not resolved")
 		return
 	}
-	res := w.EnumPaths(fn, EnumOpts{})
+	res := w.EnumPaths(fn, EnumOpts{Inline: true})
 	r.Count("paths", len(res.Paths))
 	bad := ""
 	nCancel := 0
